@@ -208,6 +208,64 @@ def eval_pcases(ck, name, cases):
     return {"P": ints(mp.group(1)), "M": ints(mv.group(1)), "V": ints(mv.group(2))}, out
 
 
+# ------------------------------------------------------------------------------ Pyroscope read handlers (model/ReadProf.v)
+PFHEADER = ("From Coq Require Import List NArith ZArith Bool.\nFrom Qryn Require Import model.Pprof model.ProfTree model.ProfDiff model.ReadProf.\n"
+            "Import ListNotations.\nOpen Scope Z_scope.\n")
+PFEP = {"profile_types": "EpProfileTypes", "label_names": "EpLabelNames", "label_values": "EpLabelValues", "merge_stacktraces": "EpMergeStacktraces",
+        "select_series": "EpSelectSeries", "merge_profile": "EpMergeProfile", "series": "EpSeries", "stats": "EpStats", "settings": "EpSettings",
+        "analyze": "EpAnalyze", "render_diff": "EpRenderDiff"}
+PFSEL = {"ok": "PsOk", "noparse": "PsNoParse", "noplan": "PsNoPlan"}
+PFROW = {"ok": "PrOk", "null": "PrNull", "short": "PrShortType", "badpayload": "PrBadPayload"}
+
+
+def is_prof(c):
+    return bool(c.get("model")) and c["model"].get("ep") == "prof"
+
+
+def s64(u):
+    """a uint64 id as the N of the model (ids are compared only)"""
+    return coq_Z(u)
+
+
+def pfrow_to_coq(r):
+    if r["k"] != "tree":
+        return PFROW[r["k"]]
+    rows = coq_list(["trow %s %s %s %s %s" % (s64(t["p"]), s64(t["f"]), s64(t["i"]), coq_Z(t["s"]), coq_Z(t["t"])) for t in (r.get("tree") or [])])
+    fns = coq_list(["tfn %s %s" % (s64(f[0]), coq_Z(f[1])) for f in (r.get("fns") or [])])
+    return "(PrTree %s %s)" % (rows, fns)
+
+
+def pfside_to_coq(sd):
+    return "(mkSide %s %s %s %s)" % (PFSEL[sd["sel"]], coq_list([pfrow_to_coq(r) for r in (sd.get("rows") or [])]), coq_Z(sd["fail_after"]),
+                                     "true" if sd.get("query_err") else "false")
+
+
+def pfcase_to_coq(c):
+    m = c["model"]
+    b = lambda x: "true" if x else "false"
+    req = "mkPf %s %s %s %s %s %s %s %s %s" % (PFEP[m["pep"]], b(m["body_ok"]), b(m["type_ok"]), b(m["types_equal"]), pfside_to_coq(m["left"]),
+                                               pfside_to_coq(m["right"]), coq_Z(m["start"]), coq_Z(m["end"]), coq_Z(m["step"]))
+    stmts = c["obs"].get("stmts", -1) if c["obs"]["outcome"] == "resp" else -1
+    return "mkPfC %d (%s) %d %s" % (c["id"], req, obs_code(c["obs"]), coq_Z(stmts))
+
+
+def eval_pfcases(ck, name, cases):
+    """model/ReadProf.v: predicted (class, statements) per case, mismatches, spec violations"""
+    txt = (PFHEADER + "Definition cases : list pfcase := [\n  " + ";\n  ".join(pfcase_to_coq(c) for c in cases) + "].\n"
+           "Definition P := Eval vm_compute in map (fun c => let '(o, n) := pfpredicted c in o * 1000 + n) cases.\nPrint P.\n"
+           "Definition MV := Eval vm_compute in (pfmismatches cases, pfspec_violations cases).\nPrint MV.\n")
+    rc, out = ck.coq_eval(name, txt)
+    if rc != 0:
+        return None, out
+    flat = " ".join(out.split())
+    mp = re.search(r"\bP = (\[.*?\]|nil)\s*: list Z", flat)
+    mv = re.search(r"\bMV = \((\[.*?\]|nil), (\[.*?\]|nil)\)", flat)
+    if not mp or not mv:
+        return None, out
+    ints = lambda t: [int(x) for x in re.findall(r"-?\d+", t)]
+    return {"P": ints(mp.group(1)), "M": ints(mv.group(1)), "V": ints(mv.group(2))}, out
+
+
 # ------------------------------------------------------------------------------ harness
 def run_harness(ck, args, tag):
     outp = os.path.join(ck.work, tag + ".jsonl")
@@ -223,7 +281,7 @@ def run_harness(ck, args, tag):
 def strip(c):
     """what goes into a replay file: the request, the script, the observation"""
     d = {k: c[k] for k in ("class", "method", "path", "params", "script") if k in c}
-    for k in ("accept", "body", "ctype", "model", "wait_ms", "abort_after", "tcp", "ws", "boot", "cold"):
+    for k in ("accept", "body", "body_hex", "ctype", "model", "wait_ms", "abort_after", "tcp", "ws", "boot", "cold"):
         if k in c and c[k] not in (None, "", False, {}) :
             d[k] = c[k]
     d["id"] = c["id"]
@@ -395,7 +453,8 @@ def run(ck):
     ck.extra["skipped_for_time"] = len(skipped)
     fwd = [c for c in cases if is_fwd(c)]
     prom = [c for c in cases if is_prom(c)]
-    modelled = [c for c in cases if c.get("model") and not is_fwd(c) and not is_prom(c)]
+    profc = [c for c in cases if is_prof(c)]
+    modelled = [c for c in cases if c.get("model") and not is_fwd(c) and not is_prom(c) and not is_prof(c)]
     testonly = [c for c in cases if not c.get("model")]
     known = ck.known_findings()
 
@@ -499,6 +558,36 @@ def run(ck):
                       "model_predicted": PNAME.get(ppred[w["id"]]), "case": strip(w), "others": len(PM) - 1,
                       "broken": "correspondence ReadProm.prom_outcome vs reader router"}, no_input=True)
 
+    # ---- 4d. Pyroscope read handlers, inside Coq: class AND statement count
+    fbyid4 = {c["id"]: c for c in profc}
+    fjobs4 = [(k // 150, profc[k:k + 150]) for k in range(0, len(profc), 150)]
+    with ThreadPoolExecutor(max_workers=6) as ex:
+        fres4 = list(ex.map(lambda j: eval_pfcases(ck, "C12_pfcases_%d" % j[0], j[1]), fjobs4))
+    QM, QV, QP = [], [], []
+    for r, out in fres4:
+        if r is None:
+            ck.obligation("Pyroscope cases evaluated inside Coq", False, out[-1500:])
+            return
+        QM += r["M"]; QV += r["V"]; QP += r["P"]
+    qpred = dict(zip([c["id"] for c in profc], QP))
+    qshow = lambda i: (i, fbyid4[i]["class"], "model %s/%d stmts" % (CODE_NAME.get(qpred[i] // 1000), qpred[i] % 1000),
+                       "observed %s/%s stmts %s" % (CODE_NAME.get(obs_code(fbyid4[i]["obs"])), fbyid4[i]["obs"].get("stmts"),
+                                                    (fbyid4[i]["obs"].get("panic") or fbyid4[i]["obs"].get("body_head") or "")[:90]))
+    ck.obligation("correspondence: prof_outcome = (observed outcome class, SQL statements issued) on %d requests of the Pyroscope read handlers" % len(profc),
+                  not QM, "mismatching %s" % [qshow(i) for i in QM[:6]])
+    ck.obligation("spec oracle: every request of the Pyroscope read handlers ends in an HTTP response with nothing left behind",
+                  not QV, "violating %s" % [qshow(i) for i in QV[:6]])
+    if QV:
+        w = min((fbyid4[i] for i in QV), key=size_of)
+        ck.violation({"property": "C12", "kind": "request does not end in an orderly HTTP response: " + CODE_NAME[obs_code(w["obs"])],
+                      "model_predicted": CODE_NAME.get(qpred[w["id"]] // 1000), "case": strip(w), "others": len(QV) - 1,
+                      "replay": "bin/check C12 --replay <this file>"})
+    elif QM:
+        w = min((fbyid4[i] for i in QM), key=size_of)
+        ck.violation({"property": "C12", "kind": "model and implementation disagree on (outcome class, statements issued); both orderly",
+                      "model_predicted": "%s, %d statements" % (CODE_NAME.get(qpred[w["id"]] // 1000), qpred[w["id"]] % 1000), "case": strip(w),
+                      "others": len(QM) - 1, "broken": "correspondence ReadProf.prof_outcome vs reader router"}, no_input=True)
+
     # ---- 5. test-only stream
     bad = []
     for c in testonly:
@@ -541,7 +630,16 @@ def run(ck):
                             "valid, mutated and random query bytes and random result sets. non-trivial = a SQL statement was issued (or the request did not end in a response); distinct by request+script content. ")
     ck.extra["input_distribution"] = hist
     ck.extra["observed_outcomes"] = outc
-    ck.extra["modelled_requests"] = len(modelled) + len(fwd) + len(prom)
+    ck.extra["modelled_requests"] = len(modelled) + len(fwd) + len(prom) + len(profc)
+    ck.extra["modelled_pyroscope_requests"] = len(profc)
+    ck.extra["pyroscope_model_decisions"] = {"%s/%d statements" % (CODE_NAME.get(k // 1000), k % 1000): QP.count(k) for k in sorted(set(QP))}
+    ck.extra["pyroscope_requests_reaching_the_statement"] = sum(1 for c in profc if c["obs"].get("stmts", 0) > 0)
+    ck.extra["pyroscope_cyclic_trees"] = sum(1 for c in profc if c["model"].get("cyclic"))
+    ck.extra["pyroscope_step_conversions"] = {}
+    for c in profc:
+        if c["model"]["pep"] == "select_series":
+            k = "%s -> %d" % (c["model"].get("step_text"), c["model"]["step"])
+            ck.extra["pyroscope_step_conversions"][k] = ck.extra["pyroscope_step_conversions"].get(k, 0) + 1
     ck.extra["modelled_prometheus_requests"] = len(prom)
     ck.extra["prometheus_model_decisions"] = {PNAME.get(k, str(k)): PP.count(k) for k in sorted(set(PP))}
     ck.extra["modelled_forwarding_requests"] = len(fwd)
